@@ -419,6 +419,27 @@ def roundtrip_checks(tier):
                     if not re.fullmatch(r'days since \d{4}-\d{2}-\d{2} \d{2}:\d{2}:\d{2} [+-]\d{1,2}(:?\d{2})?', tu):
                         V(case, "time units have the form '<unit> since YYYY-MM-DD HH:MM:SS <signed offset>'", tu)
             notes.append(case)
+        # a first save that fails (the directory is not there) while the time axis is still undecoded numbers; then the
+        # axis is decoded in place on the same Dataset object and the dataset is saved: the units are rewritten
+        mem = builders.cf1d(2, 3, data_vars={'temp': (('record', 'y', 'x'), numpy.arange(12.0).reshape(2, 2, 3))})
+        mem = mem.assign_coords(time=(('record',), numpy.array([0.0, 36.0]), {'units': 'hours since 2021-11-01T00:00:00-03:30', 'calendar': 'proleptic_gregorian'}))
+        case = 'roundtrip:cf1d:in-memory:decoded-after-a-failed-save'
+        try:
+            mem.ems.to_netcdf(os.path.join(work, 'no-such-directory', 'x.nc'))
+        except Exception:
+            pass
+        decoded = xarray.decode_cf(mem[['time']])['time']
+        mem['time'] = decoded
+        out = os.path.join(work, 'cf1d-mem-late-decode.nc')
+        try:
+            mem.ems.to_netcdf(out)
+            with netCDF4.Dataset(out) as B:
+                tu = B.variables['time'].getncattr('units')
+            if not re.fullmatch(r'hours since \d{4}-\d{2}-\d{2} \d{2}:\d{2}:\d{2} [+-]\d{1,2}(:?\d{2})?', tu):
+                V(case, "time units have the form '<unit> since YYYY-MM-DD HH:MM:SS <signed offset>'", tu)
+            notes.append(case)
+        except Exception as e:
+            V(case, 'saving through the convention succeeds', f'{type(e).__name__}: {e}')
         # variables that were never decoded (built in memory, or opened with mask_and_scale=False) keep what they declare:
         # a missing_value attribute stays, and no _FillValue appears next to it or on a variable that declares nothing
         for conv in ('cf2d', 'ugrid', 'shoc_standard'):
